@@ -129,6 +129,18 @@ CHECKS["C11"] = {
     "technique": "Coq well-formedness proof of the decoder + differential correspondence on foreign trees + spec-reader oracle",
 }
 
+CHECKS["C06"] = {
+    "text": "Proof (Coq): for every byte string, the reader's un-escaping inverts the printer's escaping in the \"...\" and "
+            "the triple-quoted form, and the printed literal lexes back to exactly that string (induction over the string). "
+            "The independent PROV-N reader (lexer + recursive-descent parser from the W3C grammar over Spec.v) is the "
+            "executable specification of 'denotes the same document'; it shares nothing with the printer model. Whole-document "
+            "theorem stated, not yet proved (partial): decided per run by running the extracted reader on the implementation's "
+            "get_provn() for every generated document and comparing with the strict content (formal arguments positionally); "
+            "the printer model is tied to the implementation at token level.",
+    "design_ref": "DESIGN.md §5 C06, §10",
+    "technique": "Coq proof of escape/unescape inversion + extracted grammar-based reader executed on the implementation's text",
+}
+
 NOT_YET = {}
 
 
